@@ -111,3 +111,26 @@ class Mirror:
             for a in self.C[k].get("exp_kids", []):
                 out.append((a["py"], a["tag"], False))
         return out
+
+
+def emit_schema(S):
+    """Gen_SchemaMembers.v from the output of translators/tr_schema_members.py"""
+    out = [HEADER]
+    names = []
+    for i, c in enumerate(S["classes"]):
+        decls = ["{| sd_xml := %s; sd_is_attr := %s; sd_type := %s; sd_required := %s; sd_required_literal := %s; "
+                 "sd_list := %s; sd_in_choice := %s |}" % (coq_str(d["xml"]), b(d["is_attr"]), coq_str(d["type"]), b(d["required"]),
+                                                            b(d["required_literal"]), b(d["list"]), b(d["in_choice"]))
+                 for d in c["all"]]
+        out.append("Definition sc_%d : sclass := {| sc_name := %s; sc_decls := %s |}." % (i, coq_str(c["name"]), coq_list(decls)))
+        names.append("sc_%d" % i)
+    out.append("Definition S : schema := {| s_classes := %s;\n  s_simple_base := %s |}." % (
+        coq_list(names), coq_list(["(%s, %s)" % (coq_str(k), coq_str(v)) for k, v in sorted(S["simple_base"].items())])))
+    return "\n".join(out) + "\n"
+
+
+def gen_schema(ck, S):
+    g = ck.gen_v("Gen_SchemaMembers.v", emit_schema(S))
+    ok, out = ck.coqc(g, timeout=600)
+    ck.oblige("Gen_SchemaMembers.v:compiles", ok, out[-1500:], kind="translate")
+    return ok
